@@ -13,7 +13,7 @@ import io
 import numpy as np
 from ase import Atoms
 from ase.calculators.emt import EMT
-from ase.constraints import FixAtoms, FixCom
+from ase.constraints import FixAtoms, FixCom, Hookean
 from ase.units import kB
 
 from calcs import CountingEMT, CountingLJ, Harmonic, PairRebuild, TableCalc, fresh_like, new_like
@@ -72,9 +72,9 @@ def pick_calc(rs, atoms, allow=("emt", "lj", "harm", "pair", "table")):
     if k == "lj":
         return CountingLJ(sigma=2.2, epsilon=0.05, rc=5.0, smooth=True)
     if k == "harm":
-        return Harmonic(k=0.4, centers=atoms.positions + 0.3, eps=0.05, cellk=0.0005)
+        return Harmonic(k=0.4, centers=atoms.positions + 0.3, eps=0.05, cellk=0.0005, zterm=0.002)
     if k == "pair":
-        return PairRebuild(a=0.5, rc=3.5)
+        return PairRebuild(a=0.5, rc=3.5, zterm=0.002)
     return TableCalc()
 
 
@@ -214,7 +214,12 @@ def build(seed: int, family: str | None = None, allow_restart: bool = True) -> S
     # void (the reference energy is then stale by the user's doing: such runs are used for C03 / C12 only, never for C04)
     noreset = fam.endswith("_noreset")
     fam = fam.replace("_noreset", "")
-    sc.meta = {"family": fam + ("_noreset" if noreset else ""), "scenario_seed": int(seed)}
+    # "gcmix": a grand-canonical run over particles of three different species whose only move is a double exchange
+    # (composite of two), biased towards deletion: rejected double deletions in either index order are frequent
+    mix = fam == "gcmix"
+    if mix:
+        fam = "gc"
+    sc.meta = {"family": ("gcmix" if mix else fam) + ("_noreset" if noreset else ""), "scenario_seed": int(seed)}
     sim_seed = int(rs.randint(1, 2**31 - 1))
     if fam == "canon":
         molecular = rs.rand() < 0.4
@@ -226,6 +231,9 @@ def build(seed: int, family: str | None = None, allow_restart: bool = True) -> S
             cons.append(FixAtoms(indices=sorted(rs.choice(n, size=rs.randint(1, max(2, n - 1)), replace=False).tolist())))
         elif rs.rand() < 0.5:
             cons.append(FixCom())
+        if rs.rand() < 0.3 and not any(isinstance(c, FixCom) for c in cons):
+            # a restraint: contributes to the energy the driver reports and remembers (not to the calculator's results)
+            cons.append(Hookean(a1=int(rs.randint(n)), a2=tuple(float(x) for x in atoms.positions[int(rs.randint(n))] + 0.7), k=float(rs.choice([0.2, 1.5])), rt=0.0))
         if cons:
             atoms.set_constraint(cons)
         if any(isinstance(c, FixCom) for c in cons):
@@ -289,8 +297,8 @@ def build(seed: int, family: str | None = None, allow_restart: bool = True) -> S
 
             mc.add_move(c + RecDisp(random_labels(rs, n, False), Ball(0.3)), criteria=IsobaricCriteria(), name="mixed")
     elif fam == "gc":
-        molecular = rs.rand() < 0.5
-        n0 = int(rs.randint(1, 4))
+        molecular = rs.rand() < 0.5 and not mix
+        n0 = int(rs.randint(1, 4)) if not mix else int(rs.randint(3, 5))
         if molecular:
             tmpl = Atoms("CO", positions=[[0, 0, 0], [0, 0, 1.13]])
             symbols = ["C", "O"] * n0
@@ -300,7 +308,10 @@ def build(seed: int, family: str | None = None, allow_restart: bool = True) -> S
             lab0 = np.repeat(np.arange(n0), 2)
         else:
             tmpl = Atoms("Cu", positions=[[0, 0, 0]])
-            base = make_atoms(rs, n0, f"Cu{n0}", extras=False)
+            # particles of different species (half of the runs): which particle sits where then matters to the energy
+            base = make_atoms(rs, n0, [str(x) for x in rs.choice(["Cu", "Ag", "Au", "Ni"], n0)] if (rs.rand() < 0.5 or mix) else f"Cu{n0}", extras=False)
+            if mix:
+                base.set_chemical_symbols((["Cu", "Ag", "Au", "Ni"] * 2)[:n0])
             lab0 = np.arange(n0)
         extras = rs.rand() < 0.6
         if extras:
@@ -331,7 +342,7 @@ def build(seed: int, family: str | None = None, allow_restart: bool = True) -> S
                 atoms.set_constraint(FixAtoms(indices=[len(atoms) - 1]))
         # calculators with per-atom internal state are left unusable by a rejected exchange
         # (known finding, truncates the trace): keep them to a third of the runs
-        atoms.calc = pick_calc(rs, atoms) if rs.rand() < 0.35 else pick_calc(rs, atoms, allow=("harm", "pair", "table"))
+        atoms.calc = pick_calc(rs, atoms) if (rs.rand() < 0.35 and not mix) else pick_calc(rs, atoms, allow=("harm", "pair", "table"))
         mc = GrandCanonical(atoms, exchange_atoms=tmpl, temperature=float(rs.choice([300.0, 3000.0])), chemical_potential=float(rs.choice([-0.5, 0.0, 0.5, 3.0])),
                             number_of_exchange_particles=n0, max_cycles=int(rs.randint(1, 4)), seed=sim_seed, logfile=maybe_logfile(rs))
         if rs.rand() < 0.3:
@@ -343,6 +354,9 @@ def build(seed: int, family: str | None = None, allow_restart: bool = True) -> S
         if rs.rand() < 0.4:
             e.default_label = int(rs.choice([0, -1, 7, 2]))
         shape = rs.randint(7)
+        if mix:
+            shape = 2
+            e.bias_towards_insert = 0.25
         if shape <= 1:
             mc.add_move(e, name="exch")
         elif shape == 2:
